@@ -4,6 +4,7 @@ import Proofs.C09
 import Proofs.C09Conv
 import Proofs.C09Compose
 import Proofs.C09Sharp
+import Proofs.C09Cache
 import GoawkModel.C09Digits
 import Proofs.C09Scan
 /-! Property theorems for C09 (see /verif/DESIGN.md). Only property theorems and non-vacuity examples live here.
@@ -23,7 +24,7 @@ theorem gen_matches :
     Generated.C09Verbs.specChars = [32, 46, 45, 43, 42, 35, 48, 49, 50, 51, 52, 53, 54, 55, 56, 57] ∧
     Generated.C09Verbs.specCharsG = Generated.C09Verbs.specChars ∧
     Generated.C09Verbs.starType = 100 ∧ Generated.C09Verbs.precGVerbs = [103, 71] ∧ Generated.C09Verbs.precGInsert = [46, 54] ∧
-    Generated.C09Verbs.convLetters = [115, 100, 102, 117, 99] := by decide
+    Generated.C09Verbs.convLetters = [115, 100, 102, 117, 99] ∧ Generated.C09Verbs.maxCachedFormats = 100 := by decide
 
 /-- the full statement: every conversion specification in the C domain, applied to any arguments, gives what C gives -/
 def SprintfIsC : Prop :=
@@ -374,5 +375,26 @@ example : SharpShape 103 6 [49, 101, 43, 48, 54] [49, 46, 48, 48, 48, 48, 48, 10
   Or.inr (Or.inl ⟨by decide, [49], [], 5, [101, 43, 48, 54], (by intro c hc; simp at hc; subst hc; decide), (by intro c hc; simp at hc), Or.inr ⟨101, [43, 48, 54], rfl, Or.inl rfl⟩,
     by decide, by decide, by decide, by decide⟩)
 example : goSharpFloat 101 0 [51, 101, 43, 48, 48] = [51, 46, 101, 43, 48, 48] ∧ goSharpFloat 103 6 [48] = [48, 46, 48, 48, 48, 48, 48] := by decide
+
+/-! ### the format cache is transparent -/
+
+/-- **Cache transparency.** On an interpreter whose format cache holds only entries produced by parsing (`CacheOK`; true of the
+empty cache of a new interpreter and preserved by every use), `sprintf` with the cache returns exactly what the cache-less
+`awkSprintf` computes — on a hit as on a miss, including the parse error (never stored), and including the argument-count
+check, which is made after the lookup on every use — and leaves the cache `CacheOK`. -/
+theorem format_cache_transparent (dg : DigitGen) (chars : Bool) (c : FmtCache) (fmt : Bytes) (args : List Arg) (hc : CacheOK c) :
+    (awkSprintfC dg chars c fmt args).1 = awkSprintf dg chars fmt args ∧ CacheOK (awkSprintfC dg chars c fmt args).2 :=
+  sprintf_cache_step dg chars c fmt args hc
+
+/-- hence any sequence of uses on one interpreter, starting from a new one — repeated formats, varying arguments, any number
+of `Execute` calls, below or above the cache limit — gives use by use what each use gives on its own -/
+theorem repeated_use_is_single_use (dg : DigitGen) (chars : Bool) (uses : List (Bytes × List Arg)) :
+    runUses dg chars [] uses = uses.map (fun u => awkSprintf dg chars u.1 u.2) :=
+  runUses_transparent dg chars uses [] cacheOK_nil
+
+/-- an unknown conversion is an error on the first and on every later use; too few arguments after a use with enough is
+the argument-count error -/
+example : runUses dg0 false [] [([37, 122], [num 1]), ([37, 122], [num 1]), ([37, 100, 37, 100], [num 1, num 2]), ([37, 100, 37, 100], [num 1])]
+    = [.err (.badVerb 122), .err (.badVerb 122), .ok [49, 50], .err (.argCount 1 2)] := by decide
 
 end GoawkModel.C09.Props
